@@ -24,6 +24,14 @@ CHECKS = {
    technique="mutation-based fuzzing driven by Hypothesis recipes (token/bracket/pile/escape/directive mutations of corpus and generated sources, random bytes) with a validity-predicate oracle",
    text="Every generated input is compiled with -Fap -Fao; the compiler must exit without signal or internal fault, within the CPU limit, and exit non-zero exactly when it printed an error. Fault sites already known are listed as known findings by call site.",
    note="Faults are recognised by the signal handler's marker (hook 2) or death by signal, never by text that an echoed source line could forge.", design="4 C07"),
+ "C08": dict(level="exploration", engine="hypothesis-subprocess",
+   technique="metamorphic property-based testing: pairs of compilations differing in one environmental variation (ASLR, collector on/off/forced schedule via hook, working directory, environment, batch), byte comparison of all outputs",
+   text="Generated program sets are compiled twice with one controlled difference; every emitted file and the diagnostic stream must be byte-identical.",
+   note="Forced collection uses hook 1 (ALDOR_VERIF_GC). Batch-vs-separate is a listed known finding.", design="4 C08"),
+ "C09": dict(level="exploration", engine="hypothesis-subprocess",
+   technique="differential property-based testing over collection schedules: forced collection every k-th allocation (hook, freed storage poisoned) versus the collector never running, on both execution routes",
+   text="Allocation-heavy generated programs run as executables under k in {1..987} (collect at every allocation included) and under the interpreter with k in [331,1000]; output and exit class must equal the run without collection; over a million forced collections per quick run.",
+   note="Schedules are 'every k-th allocation from offset j'; arbitrary subsets are sampled by that family.", design="4 C09"),
  "C10": dict(level="exploration", engine="rapidcheck-stateful",
    technique="stateful model-based property testing (rapidcheck histories, fork-isolated, reference model of live blocks) + exhaustive enumeration of short histories",
    text="Random alloc/free/resize/recode/link/root/gc histories (<=200 steps quick, up to 1e5 thorough) and all histories of length <=5 (thorough <=6) over a 10-letter alphabet run on the real allocator in both build flavours; after every step alignment, size, disjointness, byte patterns, code, survival of reachable blocks and stoAudit are checked.",
@@ -87,7 +95,7 @@ def main():
             {"name": "rapidcheck-stateful", "path": "harness/containers_rc.cc", "serves_properties": ["C10", "C20"], "kind_free_text": "rapidcheck-generated operation histories against reference models"},
             {"name": "exhaustive-loop+hypothesis", "path": "harness/xfloat_check.cc", "serves_properties": ["C19"], "kind_free_text": "exhaustive bit-pattern loops; Hypothesis-generated literals through the compiler"},
             {"name": "fault-enumeration", "path": "vt/props/c17.py", "serves_properties": ["C17", "C18"], "kind_free_text": "enumerated damage / write-fault points applied to real compiler runs"},
-            {"name": "hypothesis-subprocess", "path": "vt/", "serves_properties": ["C01", "C02", "C03", "C07"], "kind_free_text": "Hypothesis-generated programs/inputs driving the compiler under test as a subprocess"},
+            {"name": "hypothesis-subprocess", "path": "vt/", "serves_properties": ["C01", "C02", "C03", "C07", "C08", "C09"], "kind_free_text": "Hypothesis-generated programs/inputs driving the compiler under test as a subprocess"},
         ],
         "checks": checks,
         "not_applicable": na,
